@@ -80,6 +80,46 @@ MUTANTS: dict[str, dict[str, list[tuple[str, str, str]]]] = {
                            'temp = path.with_name(f\'.{path.name}.tmp\')\n        if temp.is_dir():',
                            'temp = path\n        if False:')],
     },
+    'C11': {
+        'publish-rollback-removed': [('forml/flow/_graph/port.py',
+                                      """            Subscription._PORTS[subscriber].discard(port)  # pylint: disable=protected-access
+            raise err""", """            raise err""")],
+        'double-subscription-test-dropped': [('forml/flow/_graph/port.py',
+                                              """        if port in cls._PORTS[subscriber]:
+            raise _exception.TopologyError('Double subscription')
+""", '')],
+        'apply-train-collision-test-dropped': [('forml/flow/_graph/port.py',
+                                                """        if cls._PORTS[subscriber] and (
+            isinstance(port, Apply) ^ any(isinstance(s, Apply) for s in cls._PORTS[subscriber])
+        ):
+            raise _exception.TopologyError('Apply/Train collision')
+""", '')],
+        'fork-train-collision-test-dropped': [('forml/flow/_graph/atomic.py',
+                                               """        if any(f.trained for f in self._group):
+            raise _exception.TopologyError('Fork train collision')
+""", '')],
+        'collapse-not-rerun-on-late-registration': [('forml/flow/_graph/atomic.py',
+                                                     """            self._input[publisher] = index
+            self._collapse()""", """            self._input[publisher] = index""")],
+        'cycle-test-removed': [('forml/flow/_graph/span.py',
+                                """            if node in self.members:
+                raise self.Cyclic(f'Cyclic flow near {node}')
+""", """            if node in self.members:
+                continue
+""")],
+        'validator-ignores-futures': [('forml/flow/_suite/clean.py',
+                                       """        if isinstance(node, atomic.Future):
+            self._futures.add(node)""", """        if isinstance(node, atomic.Future) and node.szin > 1:
+            self._futures.add(node)""")],
+        'trained-publisher-test-dropped': [('forml/flow/_graph/atomic.py',
+                                            """        if self.trained:
+            raise _exception.TopologyError('Trained node publishing')
+""", '')],
+        'self-subscription-test-dropped': [('forml/flow/_graph/atomic.py',
+                                            """        if self is subscription.node:
+            raise _exception.TopologyError('Self subscription')
+""", '')],
+    },
     'C16': {
         'descriptor-race': [('forml/runtime/_service/dispatch.py',
                              'if application not in self._descriptors:  # may have been registered concurrently',
